@@ -3,6 +3,7 @@
 property-breaking changes (only the property text and a scratch worktree; nothing from /verif)."""
 import json, sys, os
 pid, wt, out = sys.argv[1], sys.argv[2], sys.argv[3]
+hint = sys.argv[4] if len(sys.argv) > 4 else ''
 here = os.path.dirname(os.path.dirname(os.path.abspath(__file__)))
 for line in open(os.path.join(here, 'properties.jsonl')):
     p = json.loads(line)
@@ -22,7 +23,7 @@ On the unchanged worktree it prints "16 failed, 124 passed" (the 16 failures are
     import sys, os; sys.path.insert(0, os.getcwd())
 and run it with cwd = the worktree (cd {wt} && /venv/bin/python <script>); check AdvancedHTMLParser.__file__ points into {wt}.
 
-What kind of change: the sort of thing a maintainer could plausibly commit (a refactor, an "optimisation", a tidy-up, a bug fix that goes too far, two cooperating edits that each look fine alone), NOT a blatant sabotage. Prefer changes that need something specific to manifest - a multi-step sequence of operations, an unusual input, a particular object history or reuse, two cooperating sites - rather than ones ordinary use would expose at once. The change must violate the property INSIDE its stated domain (respect any precondition named above). Make the three changes different in kind and in the code they touch.
+What kind of change: the sort of thing a maintainer could plausibly commit (a refactor, an "optimisation", a tidy-up, a bug fix that goes too far, two cooperating edits that each look fine alone), NOT a blatant sabotage. Prefer changes that need something specific to manifest - a multi-step sequence of operations, an unusual input, a particular object history or reuse, two cooperating sites - rather than ones ordinary use would expose at once. The change must violate the property INSIDE its stated domain (respect any precondition named above). Make the three changes different in kind and in the code they touch.{(' ' + hint) if hint else ''}
 
 For each change i in 1..3 write into {out}/m<i>/ :
   patch.diff  - `git diff` output against the unchanged worktree (must apply with `git apply` to a clean checkout)
